@@ -318,6 +318,51 @@ def ob_generator_tokens(ctx, res):
     res.ok(tp, "generator emits types %s; all are try_parse arms; `type[size]` form handled" % sorted(types))
 
 
+def _cursor_value_ok(r):
+    if r in ("self.start_cursor", "self.end_cursor", "self.data.len()", "index"):
+        return True
+    m = re.fullmatch(r"(.+) \+ (.+)", r)
+    if not m:
+        return False
+    a, b = m.group(1), m.group(2)
+    base, off = (a, b) if a in ("self.start_cursor", "start") else (b, a)
+    # an offset inside the remaining text: a name bound from a char_indices item, or its index field
+    return base in ("self.start_cursor", "start") and bool(re.fullmatch(r"[A-Za-z_]\w*(\.0)?", off))
+
+
+def _value_leaves(fn, e, depth=0):
+    """the expressions an expression can evaluate to: arms of `match` / `if`, block tails, the default and the closure body of
+    `map_or` / `map(..).unwrap_or(..)`; immutable locals bound once are replaced by their initialiser (text, normal form)"""
+    from ..astq import upn, binding_before
+    e = strip(e)
+    if depth > 6 or not isinstance(e, Node):
+        return [up(e)]
+    if e.k == "match":
+        out = []
+        for a in e["arms"]:
+            out += _value_leaves(fn, a["body"], depth + 1)
+        return out
+    if e.k == "if" and e.get("else") is not None:
+        return _value_leaves(fn, e["then"], depth + 1) + _value_leaves(fn, e["else"], depth + 1)
+    if e.k == "block" and e["stmts"] and e["stmts"][-1].k == "expr_stmt" and not e["stmts"][-1]["semi"]:
+        return _value_leaves(fn, e["stmts"][-1]["e"], depth + 1)
+    if e.k == "mcall" and e["method"] == "map_or" and len(e["args"]) == 2 and strip(e["args"][1]).k == "closure":
+        return _value_leaves(fn, e["args"][0], depth + 1) + _value_leaves(fn, strip(e["args"][1])["body"], depth + 1)
+    if e.k == "mcall" and e["method"] in ("unwrap_or", "unwrap_or_else") and len(e["args"]) == 1 and strip(e["recv"]).k == "mcall" and strip(e["recv"])["method"] == "map" \
+            and len(strip(e["recv"])["args"]) == 1 and strip(strip(e["recv"])["args"][0]).k == "closure":
+        d = strip(e["args"][0])
+        return _value_leaves(fn, d["body"] if d.k == "closure" else d, depth + 1) + _value_leaves(fn, strip(strip(e["recv"])["args"][0])["body"], depth + 1)
+    if e.k == "path" and "::" not in e["path"]:
+        b = binding_before(fn, e["path"], e)
+        if b is not None and b[0] == "let" and b[2] == () and b[1].get("init") is not None and b[1]["pat"].k == "p_ident" and not b[1]["pat"].get("mut"):
+            return _value_leaves(fn, b[1]["init"], depth + 1)
+    if e.k == "binary" and e["op"] == "+":
+        l_, r_ = _value_leaves(fn, e["l"], depth + 1), _value_leaves(fn, e["r"], depth + 1)
+        if len(l_) == 1 and len(r_) == 1:
+            return ["%s + %s" % (l_[0], r_[0])]
+    return [up(e)]
+
+
 def ob_slice_provenance(ctx, res):
     """C19-P1: string slicing in the autosql parser only at cursor positions (char boundaries); no unwrap on input-derived options"""
     n = 0
@@ -346,7 +391,13 @@ def ob_slice_provenance(ctx, res):
         for x in walk_no_nested_fn(fn.body):
             if x.k == "assign" and up(strip(x["l"])) in ("self.start_cursor", "self.end_cursor"):
                 n += 1
-                r = up(strip(x["r"]))
+                bad_leaf = None
+                for leaf in _value_leaves(fn, x["r"]):
+                    if not _cursor_value_ok(leaf):
+                        bad_leaf = leaf
+                if bad_leaf is None:
+                    continue
+                r = bad_leaf
                 ok = r in ("self.start_cursor", "self.end_cursor", "self.data.len()", "index") or re.fullmatch(r"([A-Za-z_]\w*) \+ self\.start_cursor|self\.start_cursor \+ ([A-Za-z_]\w*)", r) or \
                     re.fullmatch(r"start \+ ([A-Za-z_]\w*)\.0|([A-Za-z_]\w*)\.0 \+ start", r) or re.fullmatch(r"([A-Za-z_]\w*) \+ start|start \+ ([A-Za-z_]\w*)", r)
                 if not ok:
@@ -420,6 +471,15 @@ def ob_parser_tables(ctx, res):
     if len(ifs) != 1:
         res.fail("parserTables/name-check", dn, "name validation not found")
         return
+    ev = _name_check_eval(ctx, dn, ifs[0])
+    if ev is not None:
+        if ev[0] == "bad":
+            res.fail("parserTables/name-charset", ifs[0],
+                     "declaration names must be identifiers (letters, digits, `_`; first character a letter or `_`): the name `%s` is %s; a name such as `my_bed` rejected means "
+                     "the schema does not parse and the bigBed header silently falls back to field count 3" % (ev[1], "accepted" if ev[2] else "rejected"))
+        else:
+            res.ok(ifs[0], "DeclareName: validation evaluated on %d names: first character letter or `_`, the rest letters, digits or `_`; the empty name is refused" % ev[1])
+        return
     c = _sqz(up(ifs[0]["cond"]))
     lets = {x["pat"]["name"]: _sqz(up(x["init"])) for x in walk_no_nested_fn(dn.body) if x.k == "let" and x["pat"].k == "p_ident" and x.get("init") is not None}
     for k, v in lets.items():
@@ -433,6 +493,73 @@ def ob_parser_tables(ctx, res):
                  "and the bigBed header silently falls back to field count 3; condition: `%s`" % up(ifs[0]["cond"]))
     else:
         res.ok(ifs[0], "DeclareName: first character letter or `_`, the rest letters, digits or `_`")
+
+
+_NAME_CASES = [("abc", True), ("_a1", True), ("my_bed", True), ("a1_", True), ("B", True), ("\u00e9t\u00e9", True),
+               ("1ab", False), ("", False), ("a-b", False), ("-", False), ("a.b", False), ("9", False), ("a(", False)]
+
+
+def _name_check_eval(ctx, dn, iff):
+    """the statements of DeclareName::parse up to the validity test, run on concrete names: None | ("ok", n) | ("bad", name, accepted)"""
+    from ..rules.interp import Interp, NotPure, _Return
+    st = iff
+    while st.parent is not None and st.parent is not dn.body:
+        st = st.parent
+    top = dn.body["stmts"]
+    idx = [i for i, x in enumerate(top) if x is st]
+    if not idx:
+        return None
+    pre = top[:idx[0] + 1]
+    n = 0
+    for name, valid in _NAME_CASES:
+        box = []
+
+        def method(m, recv, args, name=name, box=box):
+            if recv == "PARSER" and m == "eat_word" and not args:
+                return name
+            if isinstance(recv, str) and m in ("chars",) and not args and len(recv) != 1 or (isinstance(recv, str) and m == "chars" and not args):
+                return list(recv)
+            if isinstance(recv, str) and m in ("to_string", "as_str", "to_owned", "trim") and not args:
+                return recv if m != "trim" else recv.strip()
+            if isinstance(recv, str) and m == "is_empty" and not args:
+                return recv == ""
+            if isinstance(recv, list) and m == "next" and not args:
+                return ("some", recv[0]) if recv else None
+            if isinstance(recv, list) and m in ("any", "all") and len(args) == 1:
+                rs = [bool(box[0].apply_closure(args[0], [c_])) for c_ in recv]
+                return any(rs) if m == "any" else all(rs)
+            if isinstance(recv, list) and m == "skip" and len(args) == 1 and isinstance(args[0], int):
+                return recv[args[0]:]
+            if isinstance(recv, str) and len(recv) == 1 and not args:
+                if m == "is_alphabetic":
+                    return recv.isalpha()
+                if m == "is_alphanumeric":
+                    return recv.isalpha() or recv.isnumeric()
+                if m == "is_ascii_alphabetic":
+                    return recv.isascii() and recv.isalpha()
+                if m == "is_ascii_alphanumeric":
+                    return recv.isascii() and recv.isalnum()
+                if m in ("is_numeric", "is_ascii_digit"):
+                    return recv.isdigit()
+            raise NotPure("method %s" % m)
+        it = Interp(ctx.ast, A, extern={"None": None, "method": method})
+        box.append(it)
+        try:
+            it.run_stmts(pre, {"parser": "PARSER"}, 0)
+            accepted = True
+        except _Return as r:
+            v = r.v
+            if not (isinstance(v, tuple) and v and v[0] == "err"):
+                return None
+            accepted = False
+        except NotPure:
+            return None
+        except Exception:
+            return None
+        if accepted != valid:
+            return ("bad", name, accepted)
+        n += 1
+    return ("ok", n)
 
 
 def _sqz(t):
